@@ -12,8 +12,8 @@ from pyvc.view import SV, W
 from pyvc import extract
 F = 'pym/bob/cmds/jenkins/jenkins.py'
 def build(reg):
-    units = dfs_units(reg)
-    return units + [Watch(F, 'JobNameCalculator.sanitize', 'graph closure, reachability-checked greedy merge, prefix naming, numbering (unique internal names)'),
+    units = dfs_units(reg) + naming_units(reg)
+    return units + [Watch(F, 'JobNameCalculator.sanitize', 'graph closure, reachability-checked greedy merge, prefix naming (the final naming block is under contract: naming_units)'),
             Watch(F, 'JobNameCalculator.getJobInternalName', 'name mangling'), Watch(F, 'JobNameCalculator.getJobDisplayName', 'prefix + calculated name'),
             Watch(F, '_genJenkinsJobs', 'job population'),
             Watch(F, 'JenkinsJob.addStep', 'steps and upstream dependencies of a job'), Watch(F, 'JenkinsJob.getUpstreamJobs', 'upstream job names'),
@@ -100,3 +100,87 @@ def dfs_units(reg):
               raises={'bob.errors.ParseError': True}, result=LS, loops={1: LoopSpec(inv=outer_loop)}, locals_types={'order': LS, 'processing': SS},
               note='if it returns: every job is in the order and after all of its upstream jobs')
     return [u, u2]
+
+
+# ---------------------------------------------------------------------------------------------------------------------
+# JobNameCalculator.sanitize, final naming block (from `def mangle` to the end of the function): BLOCK UNIT.
+# Clause: "the generated Jenkins jobs have unique names" -- two packages get the same INTERNAL job name (display name
+# mangled by the job-name regex and lower-cased) only if they belong to the same job.
+# Ghost OWNER: mangled name -> job.  Obligations at every `self.__packageName[vid] = X`:
+#     reserved:   mangle(X) is in `taken`
+#     write-once: OWNER[mangle(X)] is unset or is already the job of vid;   then OWNER[mangle(X)] := job of vid
+# With the loop invariant "a name that has an owner is in taken" (all six loops) this is the induction that shows
+# OWNER is a function: same internal name => same job.  Assumed (entry condition, produced by the unverified first part of
+# sanitize): every variant-id belongs to exactly one job (JOB_OF_VID).  Termination of the numbering loop is not proved.
+def naming_units(reg):
+    JNC = 'bob.cmds.jenkins.jenkins.JobNameCalculator'
+    AJ = OpaqueT('AbstractJobRef'); AJZ = sort_of(AJ); VID = BYTES; VS = SetT(VID); RX = OpaqueT('Regex')
+    PKGS = z3.Function('AJ_pkgs', AJZ, sort_of(VS)); JOBOF = z3.Function('JOB_OF_VID', sort_of(VID), AJZ)
+    SUB = z3.Function('regex_sub_underscore', S, S); LOWER = z3.Function('str_lower', S, S); FMT = z3.Function('fmt_name_dash_number', S, z3.IntSort(), S)
+    M = lambda z: LOWER(SUB(z))
+    OWN = DictT(STR, AJ); LJ = ListT(AJ); FN = DictT(STR, LJ)
+    reg.classes[JNC] = ClassSpec(JNC, {'_JobNameCalculator__packageName': DictT(VID, STR), '_JobNameCalculator__regexJobName': RX, '_JobNameCalculator__prefix': STR})
+    reg.attr_models['AbstractJobRef.pkgs'] = lambda e, st, b, n: [(st, e.alloc(st, VS, PKGS(b.z)))]
+    reg.models['Regex.sub'] = lambda e, st, a, kw, n: [(st, V(STR, SUB(a[2].z)))] if (z3.is_string_value(a[1].z) and a[1].z.as_string() == '_') else None
+    def fmt(e, st, a, kw, n):
+        if z3.is_string_value(a[0].z) and a[0].z.as_string() == '{}-{}' and len(a) == 3 and a[1].t == STR and a[2].t == INT: return [(st, V(STR, FMT(a[1].z, a[2].z)))]
+        return None
+    reg.models['str.format'] = fmt
+    reg.pure_names |= {'Regex.sub', 'str.format'}
+    reg.trusted += ['the job-name regex substitution and str.lower are uninterpreted functions of the name; "{}-{}".format(name, i) is an uninterpreted function of (name, i)',
+                    'entry condition of the naming block of sanitize (ASSUMED, established by the unverified merging part): the package sets of different jobs are disjoint (every variant-id belongs to one job)']
+    def axioms():
+        J = z3.Const('axJ', AJZ); v = z3.Const('axv', sort_of(VID))
+        return [z3.ForAll([J, v], z3.Implies(z3.Select(PKGS(J), v), JOBOF(v) == J), patterns=[z3.Select(PKGS(J), v)])]
+    reg.axioms['always:vid-belongs-to-one-job'] = axioms
+    def ghost_init(eng, st):
+        st.ghost['OWNER'] = V(OWN, z3.K(S, opt_none(opt(AJ))))
+    OPT = opt(AJ)
+    def owner(st, m): return z3.Select(st.ghost['OWNER'].z, m)
+    def pre_setitem(eng, st, c, k, v, node):
+        if not (isinstance(c.t, DictT) and c.t.k == VID and c.t.v == STR): return
+        fr = st.frames[-1]; taken = fr.get('taken')
+        if taken is None: raise Unsupported('package name assigned outside the naming block at %s' % eng.loc(node))
+        m = M(v.z); T = eng.deref(st, taken); job = JOBOF(k.z)
+        eng.oblige(st, 'name@%s:internal-name-was-reserved-in-taken' % node.lineno, z3.Select(T, m), 'typestate', node)
+        eng.oblige(st, 'name@%s:internal-name-is-unowned-or-owned-by-the-job-of-this-package' % node.lineno,
+                   z3.Or(opt_is_none(OPT, owner(st, m)), owner(st, m) == opt_some(OPT, job)), 'typestate', node)
+        st.ghost['OWNER'] = V(OWN, z3.Store(st.ghost['OWNER'].z, m, opt_some(OPT, job)))
+    def inv_owned(cur):
+        m = z3.Const('im', S); T = cur.taken.z
+        return ('owned-names-are-reserved', z3.ForAll([m], z3.Implies(z3.Not(opt_is_none(OPT, z3.Select(cur.ghost.OWNER.z, m))), z3.Select(T, m))))
+    def cur_owner(cur, name_z, job_z):
+        o = z3.Select(cur.ghost.OWNER.z, M(name_z))
+        return ('this-name-is-unowned-or-owned-by-this-job', z3.Or(opt_is_none(OPT, o), o == opt_some(OPT, job_z)))
+    def lA(cur, old, k, L): return [inv_owned(cur)]
+    def lA1(cur, old, k, L):
+        jobs = cur.jobs
+        return [inv_owned(cur), cur_owner(cur, cur.name.z, list_get(LJ, jobs.z, 0)), ('reserved', z3.Select(cur.taken.z, M(cur.name.z))),
+                ('iterates-the-packages-of-the-job', z3.ForAll([z3.Int('ia')], z3.Implies(z3.And(0 <= z3.Int('ia'), z3.Int('ia') < list_len(ListT(VID), L)), z3.Select(PKGS(list_get(LJ, jobs.z, 0)), list_get(ListT(VID), L, z3.Int('ia')))), patterns=[list_get(ListT(VID), L, z3.Int('ia'))]))]
+    def lB(cur, old, k, L): return [inv_owned(cur)]
+    def lB1(cur, old, k, L): return [inv_owned(cur)]
+    def lB2(cur, old): return [inv_owned(cur)]
+    def lB3(cur, old, k, L):
+        nm = FMT(cur.name.z, cur.i.z)
+        return [inv_owned(cur), cur_owner(cur, nm, cur.j.z), ('reserved', z3.Select(cur.taken.z, M(nm))),
+                ('iterates-the-packages-of-the-job', z3.ForAll([z3.Int('ib')], z3.Implies(z3.And(0 <= z3.Int('ib'), z3.Int('ib') < list_len(ListT(VID), L)), z3.Select(PKGS(cur.j.z), list_get(ListT(VID), L, z3.Int('ib')))), patterns=[list_get(ListT(VID), L, z3.Int('ib'))]))]
+    u = Unit(F, 'JobNameCalculator.sanitize', {'self': ObjT(JNC)}, 'C20', name='JobNameCalculator.sanitize[final-naming-block]', ghost_init=ghost_init,
+             locals_types={'taken': SetT(STR), 'ambiguous': ListT(TupleT(STR, LJ))},
+             ensures=[('every-owned-internal-name-is-reserved', lambda o, n, r: inv_owned(n)[1])], modifies=['self.__packageName'],
+             note='BLOCK UNIT (def mangle .. end): internal job names are owned by one job (write-once ghost OWNER); entry condition assumed')
+    u.block = ('def mangle', None); u.block_locals = {'finalNames': FN}
+    def hook(eng, st, c, k, v, node):
+        if getattr(reg, 'current_unit', None) is u: pre_setitem(eng, st, c, k, v, node)
+    reg.pre_setitem_hook = hook
+    # loop ordinals are numbered over the whole function: the block's loops are its last six
+    mi = extract.load(F); fnode, _ = mi.find_func('JobNameCalculator.sanitize'); n = 0
+    if fnode is not None:
+        def walk(node):
+            nonlocal n
+            for ch in ast.iter_child_nodes(node):
+                if isinstance(ch, (ast.FunctionDef, ast.AsyncFunctionDef, ast.Lambda, ast.ClassDef)): continue
+                if isinstance(ch, (ast.For, ast.While, ast.AsyncFor)): n += 1
+                walk(ch)
+        walk(fnode)
+    for i, f in enumerate([lA, lA1, lB, lB1, lB2, lB3]): u.loops[n - 5 + i] = LoopSpec(inv=f)
+    return [u]
